@@ -331,6 +331,39 @@ func (c *Ctx) NoPathFromEdge(key, fname string, g *Guard, to IM, min int, desc, 
 	c.ok(key, rule, desc, n)
 }
 
+// AfterEdge (K3): once an edge establishing g has been taken, no exit
+// instruction is reached before an instruction matching then (paths that
+// leave by an edge establishing one of the excuse guards are not followed).
+func (c *Ctx) AfterEdge(key, fname string, g *Guard, then, exit IM, min int, desc, why string, excuse ...*Guard) {
+	rule := "K3 After (from an established branch)"
+	fn := c.F(fname)
+	if !c.need(key, rule, desc, fn, fname) {
+		return
+	}
+	n := 0
+	for _, b := range fn.Blocks {
+		for i, sb := range b.Succs {
+			if !c.P.EdgeAsserts(Edge{b, i}, g) {
+				continue
+			}
+			n++
+			s := &Search{P: c.P, Fn: fn, Avoid: then, Tgt: exit}
+			if len(excuse) > 0 {
+				s.Block = c.P.EdgesAsserting(excuse...)
+			}
+			if f := s.runFromBlock(sb); f != nil {
+				c.fail(key, rule, desc, why, fmt.Sprintf("%s is reached after the branch %s=%v taken at %s without the required step; path %s", c.where(f.Instr), g.Re, g.Val, c.P.Pos(firstPos(b)), c.P.TraceString(f.Trace)), n)
+				return
+			}
+		}
+	}
+	if n < min {
+		c.fail(key, rule, desc, why, fmt.Sprintf("only %d branch(es) establishing %s=%v in %s, expected >= %d", n, g.Re, g.Val, fname, min), n)
+		return
+	}
+	c.ok(key, rule, desc, n)
+}
+
 // runFromBlock runs the search starting at the top of block b.
 func (s *Search) runFromBlock(b *ssa.BasicBlock) *Found {
 	if len(b.Instrs) == 0 {
